@@ -346,7 +346,14 @@ def clause_stop_paths(ctx, P, pre="C13h"):
     check_every_stop_path_purges(ctx, P, pre + ".browse", "ServiceEvent", "SearchStopped", "Browse", "service_queriers")
 
 
+def clause_stop_forgets_addresses(ctx, P):
+    """stop_browse forgets what it cached: the address map is keyed by lower-cased host name, so the removal in
+    remove_service_type must use a lower-cased key for every spelling a responder may use"""
+    f5.run_f5(ctx, P, {"addr"}, rule="C13i.F5.key-normalised", only_fns=["DnsCache::remove_service_type"], floor=1)
+
+
 def run(ctx, P):
+    clause_stop_forgets_addresses(ctx, P)
     clause_stop_paths(ctx, P)
     clause_a(ctx, P)
     clause_b(ctx, P)
